@@ -1,7 +1,7 @@
 """check configuration for C03"""
 
 CFG = {'module': 'Dnp3.Props.C03',
- 'gen': [],
+ 'gen': ['DbTypes.lean'],
  'engines': ['db', 'outstationdb'],
  'monitors': ['released_only_after_confirm',
               'released_once',
@@ -24,17 +24,23 @@ CFG = {'module': 'Dnp3.Props.C03',
               'add_result',
               'update_result',
               'existed',
-              'nopoint'],
- 'rule': 'engine db: operation sequences straight on the real Database (add / update / select by every READ '
-         'header form / write_response_headers at capacities 0..2048 / write_unsolicited / '
-         'clear_written_events / reset), compared with the Lean database model; engine outstationdb: the '
-         'same session grammar over a populated database (binary and analog points in classes 0-3, event '
-         'buffers of 1-20 per type, big databases forcing multi-fragment READ series), update transactions '
-         'interleaved at every point, READs by class / type / range / variation / count, unsolicited series, '
-         'confirms right / wrong / late / missing, timeouts, aborting requests, ENABLE/DISABLE_UNSOLICITED, '
-         'disconnects; an event ledger (recorded / carried / released) and a mirrored reference database are '
-         'kept by the monitors. Each history runs the real code and the model; monitors evaluate the '
-         "property predicates on the implementation's trace with an independent decoder.",
+              'nopoint',
+              'event_iff_beyond_deadband_of_last_reported'],
+ 'rule': 'engine db: operation sequences straight on the real Database over all eight point types (add with '
+         'configured static / event variation and dead-band / update with every UpdateOptions / select by '
+         "every READ header form the library's ReadHeader::from_* tables accept / write_response_headers at "
+         'capacities 0..2048 / write_unsolicited / clear_written_events / reset; per-type event capacities; '
+         'dead-band drift histories), compared with the Lean database model; engine outstationdb: the same '
+         'session grammar over a populated database (points of any mix of the eight point types - binary / '
+         'double-bit / binary output status / counter / frozen counter / analog / analog output status / '
+         'octet string - in classes 0-3, per-type event capacities 0-250, equal or each type its own, '
+         'dead-bands, class-zero configurations, big databases forcing multi-fragment READ series), update '
+         'transactions interleaved at every point, READs by class / type / range / variation / count, '
+         'unsolicited series, confirms right / wrong / late / missing, timeouts, aborting requests, '
+         'ENABLE/DISABLE_UNSOLICITED, disconnects; an event ledger (recorded / carried / released) and a '
+         'mirrored reference database are kept by the monitors. Each history runs the real code and the '
+         "model; monitors evaluate the property predicates on the implementation's trace with an independent "
+         'decoder.',
  'trusted_base': ['hand-written Lean model of outstation/database/** (event buffer, static database, '
                   'response writers) tied by differential execution of the real Database (engine db) and of '
                   'the real OutstationTask (engine outstationdb)',
@@ -42,16 +48,24 @@ CFG = {'module': 'Dnp3.Props.C03',
                   'control/collection.rs, deferred.rs, transport/reader.rs pop_request) tied by differential '
                   'execution of the REAL OutstationTask (real link layer, transport, parser, session, '
                   'database) over an in-memory pipe on a paused clock',
-                  'application / control-handler callbacks are scripted identically on both sides'],
+                  'application / control-handler callbacks are scripted identically on both sides',
+                  'generated per-type tables Gen/DbTypes.lean (point types, Insertable slots, is_any_full / '
+                  'max_events lists, ReadHeader::from_* arms, Updatable accessors, static / event variation '
+                  'tables) re-extracted from outstation/database/** on every run; their well-formedness is '
+                  'proved (Props.Db §Tables)'],
  'assumptions': ['tokio timer and Notify semantics; xxh64 collision-free on compared fragments (model '
                  'compares octets)'],
- 'level_text': 'Lean theorems over the database model for all states / operation sequences (order, exact '
-               'counters, release exactly the written records once and only by clear, reset releases '
-               'nothing, overflow discards the oldest of the type and is reported, responses mark a prefix) '
-               'and over the session model for all states / inputs, database opaque (clearWritten is applied '
-               'only at the two confirm points; every series that ends without its confirm - timeout, new '
-               'request, unsolicited retries exhausted / DISABLE_UNSOLICITED, disconnect - resets: outside a '
-               'series no record is Written); tie: correspondence of the real task vs the session model + '
+ 'level_text': 'Lean theorems over the database model (all eight point types, every per-type capacity '
+               'configuration) for all states / operation sequences (generated tables well formed: every '
+               'Insertable slot is its own; type capacity and list capacity never exceeded; the event rule: '
+               'Detect creates an event iff the flags changed or the value is beyond the dead-band of the '
+               'value last reported, whose baseline moves only with an event; order, exact counters, release '
+               'exactly the written records once and only by clear, reset releases nothing, overflow '
+               'discards the oldest of the type and is reported, responses mark a prefix) and over the '
+               'session model for all states / inputs, database opaque (clearWritten is applied only at the '
+               'two confirm points; every series that ends without its confirm - timeout, new request, '
+               'unsolicited retries exhausted / DISABLE_UNSOLICITED, disconnect - resets: outside a series '
+               'no record is Written); tie: correspondence of the real task vs the session model + '
                'event-ledger monitors',
  'level_note': 'trusted: Lean kernel, harness, scripted callbacks; Rust modelled not verified; runtime '
                'scheduling outside the model'}
